@@ -121,6 +121,7 @@ def layouts(ctx):
 
 
 def run(ctx):
+    rng = ctx.rng
     ctx.proofs()
     core.build_repo
     bindir = core.build_harness()
@@ -163,6 +164,7 @@ def run(ctx):
     # (2) real files: map_extents paging and the segment search
     with core.Scratch('c19') as d:
         lays = layouts(ctx)
+        volatile = set()
         reqs_p, reqs_m, meta = [], [], []
         for i, (length, segs) in enumerate(lays):
             p = f'{d}/f{i}'
@@ -178,6 +180,30 @@ def run(ctx):
             reqs_m += [f'pages 32 {fmt(ext3)}', 'segments %d %s' % (length, ' '.join(f'{a}-{b}u' for a, b in sk)),
                        f'sparse {st.st_blocks} {st.st_size}']
             meta.append((p, length, segs, ext3, sk))
+        # preallocated (fallocate) regions: written but not yet written back (extents still flagged 'unwritten'), and written
+        # and synced (adjacent unwritten/written/unwritten extents that start exactly where the previous one ends)
+        for j in range(6 if ctx.quick else 60):
+            p = f'{d}/pre{j}'
+            length = rng.choice([4, 8, 64]) * 1048576
+            fd = os.open(p, os.O_CREAT | os.O_TRUNC | os.O_RDWR, 0o644)
+            os.ftruncate(fd, length)
+            pa = rng.choice([1, 2]) * 1048576; pl = rng.choice([16, 64, 256]) * 1024
+            os.posix_fallocate(fd, pa, pl)
+            woff = pa + rng.choice([0, 8192, pl // 2]); wlen = rng.choice([4096, 8192, 12288])
+            os.pwrite(fd, fsutil.lcg_bytes(min(wlen, pa + pl - woff), 77 + j), woff)
+            segs = [(woff, woff + min(wlen, pa + pl - woff))]
+            if j % 2 == 1:
+                os.fsync(fd)
+            os.close(fd)
+            ext = fsutil.fiemap(p); sk = fsutil.seek_segments(p)
+            ext3 = [(a, b, s_) for a, b, s_, _ in ext]
+            ctx.count('file.preallocated.' + ('synced' if j % 2 else 'dirty'))
+            reqs_p += [f'file-extents {p}', f'file-segments {p}', f'file-sparse {p}']
+            st = os.stat(p)
+            reqs_m += [f'pages 32 {fmt(ext3)}', 'segments %d %s' % (length, ' '.join(f'{a}-{b}u' for a, b in sk)), f'sparse {st.st_blocks} {st.st_size}']
+            meta.append((p, length, segs, ext3, sk))
+            if j % 2 == 0:
+                volatile.add(p)       # writeback may change the extent map between two readings: oracle only, no model comparison
         impl = core.ask(probe, reqs_p)
         model = core.ask(core.MODEL, reqs_m)
         for i, (p, length, segs, ext3, sk) in enumerate(meta):
@@ -205,7 +231,7 @@ def run(ctx):
                 if bad:
                     ctx.violation(f'file-{i}-{what}.json', dict(kind=what, length=length, segments=segs, fiemap=ext3, seek=sk, impl=a, model=m, oracle=bad),
                                   f'libfs hides data on layout len={length} nsegs={len(segs)}: {bad}')
-                elif a != m:
+                elif a != m and p not in volatile:
                     ctx.cov['disagreements_checked'] += 1
                     ctx.violation(f'file-corr-{i}-{what}.json',
                                   dict(kind=what, length=length, segments=segs, fiemap=ext3, seek=sk, impl=a, model=m,
